@@ -40,9 +40,9 @@ def enc_rule(repo, res, rule="ENC", tier="quick"):
                 continue
         else:
             fn = encs[0]
-        ch = X.extract_chain(fn)
+        ch = X.extract_encoder(fn)
         if ch is None:
-            res.undecided(rule, f"{rule}:{fq}", "encoder is not a recognisable replace chain (cannot decide)", fn.loc())
+            res.undecided(rule, f"{rule}:{fq}", "encoder is neither a replace chain nor a per-character loop of the recognised form (cannot decide)", fn.loc())
             continue
         prefix, suffix, chain = ch
         ok, cex, stats = X.check(chain, prefix, suffix, mod, identity=True, alphabet=X.THOROUGH_ALPHABET if tier == "thorough" else None)
